@@ -65,9 +65,16 @@ def run_driver(source_text, args=(), repo=None, defines=None, sanitize=False, ti
         if p.returncode != 0:
             return 125, 'driver does not compile against the current tree:\n' + p.stderr[-3000:]
         env = dict(os.environ, ASAN_OPTIONS='detect_leaks=0:abort_on_error=0', UBSAN_OPTIONS='print_stacktrace=1')
+        def unlimit():
+            import resource
+            soft, hard = resource.getrlimit(resource.RLIMIT_AS)
+            resource.setrlimit(resource.RLIMIT_AS, (hard, hard))
         try:
-            r = subprocess.run([exe] + [str(a) for a in args], capture_output=True, text=True, timeout=timeout, env=env, input=stdin)
-            return r.returncode, (r.stdout + r.stderr)[-6000:]
+            r = subprocess.run([exe] + [str(a) for a in args], capture_output=True, text=True, timeout=timeout, env=env, input=stdin, preexec_fn=unlimit)
+            out = (r.stdout + r.stderr)[-6000:]
+            if 'ReserveShadowMemoryRange failed' in out or 'failed to allocate' in out and 'AddressSanitizer' in out and r.returncode < 0:
+                return 125, 'the sanitizer build could not start (address-space limit):\n' + out
+            return r.returncode, out
         except subprocess.TimeoutExpired:
             return 124, 'driver timed out'
     finally:
